@@ -118,6 +118,9 @@ structure NodeMeta where
   names : Option (List String)
   device : Option String
   locked : Bool
+  /-- the NonTensorData entries of the node: `metadata["non_tensors"][key] = (data, batch_size, device)`, written as one string per key;
+      they live in the metadata, not in the storage -/
+  nts : List (String × String) := []
   deriving Repr, DecidableEq
 
 /-- where the data of a leaf lives -/
@@ -240,6 +243,11 @@ inductive Op where
   | swap (k1 k2 : List String)
   /-- `td[dst] = td[src]`: `dst` (new or existing) is bound to the tensor `src` is bound to -/
   | assign (dst src : List String)
+  /-- `td[path].set_non_tensor(key, value)` / `td[path + key] = NonTensorData(value)`: a non-tensor entry of the node `path` is set (new key
+      or new payload) -/
+  | setNonTensor (path : List String) (key payload : String)
+  /-- `del td[path + key]` for a non-tensor entry -/
+  | delNonTensor (path : List String) (key : String)
   /-- `td = pickle.loads(pickle.dumps(td))`, `td = copy.deepcopy(td)`, or the tensordict that arrives in another process
       (`_reduce_td` is the reducer registered for all three): the history goes on with the rebuilt tensordict -/
   | reduce
@@ -327,6 +335,15 @@ def step (s : State) : Op → State
     match s.snap with
     | some sn => if describes sn s.td then ⟨⟨sn.nodes, leavesFirst (slotEntries 0 sn.leaves)⟩, some sn⟩ else own
     | none => own
+  | .setNonTensor path key payload =>
+    { s with td := { s.td with nodes := s.td.nodes.map fun p =>
+        if p.1 == path then
+          (p.1, { p.2 with nts := if p.2.nts.any (·.1 == key) then p.2.nts.map (fun q => if q.1 == key then (key, payload) else q)
+                                  else p.2.nts ++ [(key, payload)] })
+        else p } }
+  | .delNonTensor path key =>
+    { s with td := { s.td with nodes := s.td.nodes.map fun p =>
+        if p.1 == path then (p.1, { p.2 with nts := p.2.nts.filter (·.1 != key) }) else p } }
   | .swap k1 k2 =>
     match s.td.entries.find? (·.key == k1), s.td.entries.find? (·.key == k2) with
     | some e1, some e2 =>
